@@ -67,6 +67,11 @@ pub fn twiceo<U: User, E: Engine<U>, G: AnyGoal<U, E>>(a: LTerm<U, E>, b: LTerm<
     proto_vulcan!([g, g2])
 }
 
+/// botho(x, a, b): x == a and x == b (one argument term used by two goals)
+pub fn botho<U: User, E: Engine<U>, G: AnyGoal<U, E>>(x: LTerm<U, E>, a: LTerm<U, E>, b: LTerm<U, E>) -> InferredGoal<U, E, G> {
+    proto_vulcan!([x == a, b == x])
+}
+
 pub fn call<U: User, E: Engine<U>, G: AnyGoal<U, E>>(name: &str, a: Vec<LTerm<U, E>>) -> G {
     use proto_vulcan::GoalCast;
     match name {
@@ -78,6 +83,7 @@ pub fn call<U: User, E: Engine<U>, G: AnyGoal<U, E>>(name: &str, a: Vec<LTerm<U,
         "projo" => projo::<U, E, G>(a[0].clone(), a[1].clone()).cast_into(),
         "cello" => cello::<U, E, G>(a[0].clone(), a[1].clone()).cast_into(),
         "twiceo" => twiceo::<U, E, G>(a[0].clone(), a[1].clone()).cast_into(),
+        "botho" => botho::<U, E, G>(a[0].clone(), a[1].clone(), a[2].clone()).cast_into(),
         other => panic!("unknown user relation {}", other),
     }
 }
